@@ -18,7 +18,10 @@ RULE = ("op histories over {read(n), read(), seek(k), seek(d,1), tell, len} on t
         "generated against the abstract position, over-read stream adds reads past the end (both are compared with the "
         "abstract cursor: theorems cursor_refines_* / cursor_refines_ext_*); handles stream: one handle closed and re-opened "
         "mid-history, one handle read to EOF while the other seeks backwards, handles opened with different atom_indices "
-        "(every handle / re-open epoch is compared with a fresh single-handle run of the model); path-reuse stream (every format): the path the handles are opened on held a different trajectory "
+        "(every handle / re-open epoch is compared with a fresh single-handle run of the model); big-file stream: a > 1 MiB trr (40 frames) and xtc (99 frames) of 3000 atoms "
+        "of float noise, both handles open at once with interleaved reads and seeks (1 probe + 2 / 10 random histories each); "
+        "three hand-written TRR variants whose frames carry velocity / force / both blocks run through every stream; "
+        "path-reuse stream (every format): the path the handles are opened on held a different trajectory "
         "(other frame count, 7 instead of 4 atoms) that was opened and read in the same process (old handle closed and the file rewritten in place / closed and replaced by a new "
         "inode / still open while the file is replaced by a new inode: overwriting the bytes under an open handle is not done, what "
         "the old handle or the HDF5 library then sees is not mdtraj's business) before the path was written again; read-ahead stream: xtc and trr "
@@ -43,6 +46,9 @@ FORMATS = {
     "xyznonl.xyz": ([1], True, True),   # .xyz whose last line has no final newline
     "dcdfix.dcd": ([1], True, True),    # CHARMM DCD with fixed atoms (hand-written; mdtraj cannot write one)   # DCD with NSET = 0 in its header (length from the file size)
     "h5": ([0], True, True), "xtc": ([2], True, True), "trr": ([6, 5], True, True), "dcd": ([1], True, True),
+    # single-precision TRR files written by hand whose frames also carry velocity and / or force blocks (mdtraj's own
+    # writer stores positions only); a reader that is not asked for them has to step over them
+    "trrv.trr": ([6, 5], True, True), "trrf.trr": ([6, 5], True, True), "trrvf.trr": ([6, 5], True, True),
     "nc": ([4, 3], True, True), "mdcrd": ([1], False, True), "xyz": ([1], True, True),
     "lammpstrj": ([1], False, True), "dtr": ([1], True, True), "arc": ([1], False, False),
 }
@@ -252,6 +258,19 @@ def build_cases(ctx):
             if ops:
                 cases.append({"fmt": fmt, "T": T, "ops": ops, "handles": 2, "atom_indices": None if j % 4 else [0, 2],
                               "stream": "pathreuse", "reuse": ru, "cell": True})
+    # big-file stream: a file of more than 1 MiB (3000 atoms of float noise), both handles open at once, interleaved reads
+    # and seeks (anything the handles of large files share below the file objects shows up here)
+    for fmt, T in (("trr", 40), ("xtc", 99)):
+        probe = [[0, "read", 3], [1, "seek", T // 2], [1, "read", 2], [0, "read", 2], [0, "tell", None], [1, "tell", None],
+                 [1, "seek", 1], [1, "read", 2], [0, "read", 1], [1, "seekrel", -2], [0, "seek", T - 3], [1, "read", 1], [0, "readall", None],
+                 [1, "read", 2], [0, "tell", None]]
+        cases.append({"fmt": fmt, "T": T, "ops": probe, "handles": 2, "atom_indices": None, "stream": "bigfile", "big": 3000, "cell": True})
+        for i in range(2 if quick else 10):
+            ops = [o for o in gen_history(rng, T, rng.randint(6, 14), fmt, i % 2 == 1) if o[1] != "readall" or rng.random() < 0.3]
+            ops = regen_positions(ops, T)      # dropping a read-to-end moves the positions: keep only what is still in range
+            if ops:
+                cases.append({"fmt": fmt, "T": T, "ops": ops, "handles": 2, "atom_indices": None if i % 2 == 0 else [0, 2, 2999],
+                              "stream": "bigfile", "big": 3000, "cell": True})
     # fixed probes: the historical witnesses always run first
     for fmt in FORMATS:
         if FORMATS[fmt][2]:
@@ -326,7 +345,7 @@ def run_cases(ctx, cases, tie=True):
         nh = c.get("handles", 1)
         ais = c.get("atom_indices_h") or [c["atom_indices"]] * max(nh, 2)
         for op, x in zip(c["ops"], o):
-            want = ais[op[0]] if ais[op[0]] is not None else [0, 1, 2, 3]
+            want = ais[op[0]] if ais[op[0]] is not None else [0, 1, 2, 3]       # (big files report their first four atoms)
             if "frames" in x and x["frames"] and x["atoms"] != want:
                 ctx.fail("%s: read(atom_indices=%s) returned atoms %s" % (c["fmt"], ais[op[0]], x["atoms"]),
                          c, observed=x["atoms"], expected=want, tags={"fmt": c["fmt"], "kind": "atoms_wrong"})
@@ -410,7 +429,8 @@ def run_cases(ctx, cases, tie=True):
                     if v2 != SPEC and (i, v2) not in badset:
                         who = VNAME[v2]
                         break
-            tags = {"fmt": fmt, "explained_by": who, "stream": c["stream"]}
+            # the hand-written TRR variants are read by the same reader as "trr": same defect, same finding
+            tags = {"fmt": "trr" if fmt in ("trrv.trr", "trrf.trr", "trrvf.trr") else fmt, "file": fmt, "explained_by": who, "stream": c["stream"]}
             ctx.fail("%s: file object deviates from the cursor contract (%s stream, explained by %s)" % (fmt, c["stream"], who),
                      c, observed=o, expected="abstract cursor (Coq spec_run)", tags=tags)
     if not tie:
